@@ -703,16 +703,15 @@ class MaterialNode(SceneNode):
         self.xmlnode.set('symbol', self.symbol)
         self.xmlnode.set('target', "#%s" % self.target.id)
 
-        inputs_in = []
-        for i in self.xmlnode.findall(tag('bind_vertex_input')):
-            input_tuple = (i.get('semantic'), i.get('input_semantic'), i.get('input_set'))
-            if input_tuple not in self.inputs:
-                self.xmlnode.remove(i)
-            else:
-                inputs_in.append(input_tuple)
-        for i in self.inputs:
-            if i not in inputs_in:
-                self.xmlnode.append(E.bind_vertex_input(semantic=i[0], input_semantic=i[1], input_set=i[2]))
+        inputnodes = self.xmlnode.findall(tag('bind_vertex_input'))
+        current = [(i.get('semantic'), i.get('input_semantic'), i.get('input_set')) for i in inputnodes]
+        if current != [tuple(i) for i in self.inputs]:
+            names = ('semantic', 'input_semantic', 'input_set')
+            inputnodes = [E.bind_vertex_input(**dict((k, v) for k, v in zip(names, i) if v is not None))
+                          for i in self.inputs]
+        _syncChildren(self.xmlnode, inputnodes,
+                      lambda child: child.tag == tag('bind_vertex_input'),
+                      before=self.xmlnode.find(tag('extra')))
 
     def __str__(self):
         return '<MaterialNode symbol=%s targetid=%s>' % (self.symbol, self.target.id)
